@@ -626,7 +626,10 @@ def generate(repo):
     mdx_hon, mdx_bin, mdx_hidden, mdx_git = parse_mdx(open(os.path.join(repo, "docs/src/content/docs/features/filtering.mdx")).read())
     rd_hon, rd_hidden, rd_bin = parse_readme(open(os.path.join(repo, "README.md")).read())
 
-    o = ["import RModel.Model.Scope",
+    rof = os.path.join(common.LEAN, "RModel/Gen/ReplaceOffsets.lean")
+    if not os.path.exists(rof) or "def replaceSkipsInvalidUtf8 : Bool" not in open(rof).read():
+        fail("Gen/ReplaceOffsets.lean (translate/replace_offsets.py) does not define replaceSkipsInvalidUtf8")
+    o = ["import RModel.Model.Scope", "import RModel.Gen.ReplaceOffsets",
          "/- GENERATED by translate/walker.py from renamify-core/src/{lib,scanner,rename}.rs, content_inspector "
          + ci["version"] + ", docs/…/filtering.mdx and README.md — do not edit -/",
          "namespace Gen", "open Scope", ""]
@@ -674,7 +677,9 @@ def generate(repo):
     o.append("def pipeline : Pipeline :=")
     o.append("  { W := walker, G := globCfg, S := sniff, binaryAsText := binaryAsText,")
     o.append("    scanFollows := scanFollowsSymlinks, simpleFollows := simplePlanFollowsSymlinks,")
-    o.append("    simpleFirstRootOnly := simpleGlobsFirstRootOnly }")
+    o.append("    simpleFirstRootOnly := simpleGlobsFirstRootOnly,")
+    o.append("    -- generated by translate/replace_offsets.py from process_file_content")
+    o.append("    simpleSkipsInvalidUtf8 := replaceSkipsInvalidUtf8 }")
     o.append("")
     o += table("docMdx", mdx_hon, "filtering.mdx: is the ignore file honoured at the level (none = the page is silent)")
     o += table("docReadme", rd_hon, "README.md 'Ignore Files'")
@@ -700,6 +705,8 @@ def generate(repo):
 
 
 def run():
+    from translate import replace_offsets
+    replace_offsets.run()          # Gen.replaceSkipsInvalidUtf8, which the generated pipeline refers to
     text = generate(common.REPO)
     path = os.path.join(common.LEAN, "RModel/Gen/Walker.lean")
     return [("Gen/Walker.lean", common.write_if_changed(path, text))]
